@@ -7,32 +7,11 @@ package limiter
 
 //@ props C13
 
-// Ghost view of the limiter's store (whichever back end the manager uses): per key the current and
-// previous window counters and the window end. All three are 0 for a key without a live entry.
-//@ ghost lsCurr map[string]int
-//@ ghost lsPrev map[string]int
-//@ ghost lsExp map[string]int
+// The limiter's view of its store (lsCurr/lsPrev/lsExp: per key the current and previous window counters and
+// the window end, 0 for a key without a live entry), the store models behind it and the checked contracts of
+// manager.get/set are in zz_contracts_store_verif.go.
 
-// manager.get / manager.set are the glue between the store and the ghost view (assumed; the msgpack
-// and memory back ends are not verified against it). An entry may have expired (TTL) when it is read.
-//@ func (*manager).get(m, key) assumed
-//@   modifies lsCurr, lsPrev, lsExp, item.currHits, item.prevHits, item.exp
-//@   ensures result != nil
-//@   ensures same-or-expired: (lsCurr[key] == old(lsCurr[key]) && lsPrev[key] == old(lsPrev[key]) && lsExp[key] == old(lsExp[key])) || (lsCurr[key] == 0 && lsPrev[key] == 0 && lsExp[key] == 0)
-//@   ensures other-keys-kept: forallS(k, k != key ==> lsCurr[k] == old(lsCurr[k]) && lsPrev[k] == old(lsPrev[k]) && lsExp[k] == old(lsExp[k]))
-//@   ensures item-is-entry: result.currHits == lsCurr[key] && result.prevHits == lsPrev[key] && result.exp == lsExp[key]
-
-// set: the relation to the ghost view is trusted; the body is checked for what it hands to an external
-// store: a buffer that nobody else holds (the store may keep the slice it is given).
-//@ func (*manager).set
-//@   modifies heap, lsCurr, lsPrev, lsExp, stHas, stVal
-//@   trusted ensures lsCurr == old(lsCurr)[key := old(it.currHits)] && lsPrev == old(lsPrev)[key := old(it.prevHits)] && lsExp == old(lsExp)[key := old(it.exp)]
-//@   atcall @fiber.Storage.Set: buffer-not-shared: arr(val) == 0 || !old(allocated(arr(val)))
-//@   atcall @fiber.Storage.Set: own-key-and-ttl: key == arg1 && exp == arg3
-
-// generated msgpack encoder: appends to b (in place or in a fresh array)
-//@ func (item).MarshalMsg(z, b) assumed pure allocates
-//@   ensures result1 == nil ==> arr(result0) == arr(b) || arr(result0) == 0 || !old(allocated(arr(result0)))
+//@ ghost lkNone int
 
 //@ func Config.MaxFunc assumed pure
 //@ func Config.Next assumed pure
@@ -43,39 +22,69 @@ package limiter
 //@ macro bypass() = (called(Config.Next) && last(Config.Next)) || last(Config.MaxFunc) == 0
 //@ macro ownKey(k) = k == last(Config.KeyGenerator)
 
+// the lock invariants on the entries (no negative counters, an empty entry has no hits, window ends fit the clock)
+//@ macro fixedWF(m) = forallS(k, (lsExp(m, k) == 0 ==> lsCurr(m, k) == 0) && lsCurr(m, k) >= 0 && 0 <= lsExp(m, k) && lsExp(m, k) < 8589934592)
+//@ macro slidingWF(m) = forallS(k, (lsExp(m, k) == 0 ==> lsCurr(m, k) == 0 && lsPrev(m, k) == 0) && lsCurr(m, k) >= 0 && 0 <= lsExp(m, k) && lsExp(m, k) < 8589934592)
+
 // ---- fixed window ---------------------------------------------------------------------------------
 //@ func (FixedWindow).New$1
 //@   requires lock-free-on-entry: !held(mux)
+//@   requires wired: manager != nil && manager.storage == cfg.Storage
+//@   requires hooks-set: cfg.MaxFunc != nil && cfg.KeyGenerator != nil && cfg.LimitReached != nil
 //@   requires window-positive: expiration > 0 && expiration < 4294967296
-//@   lock mux protects lsCurr, lsPrev, lsExp inv entry-wf: forallS(k, (lsExp[k] == 0 ==> lsCurr[k] == 0) && lsCurr[k] >= 0 && 0 <= lsExp[k] && lsExp[k] < 8589934592)
+//@   safety nil
+//   (calling a nil function value is not a safety class of the engine: stated as call-site clauses)
+//@   atcall Config.MaxFunc: hook-is-set: fnvalue != nil
+//@   atcall Config.Next: hook-is-set: fnvalue != nil
+//@   atcall Config.KeyGenerator: hook-is-set: fnvalue != nil
+//@   atcall Config.LimitReached: hook-is-set: fnvalue != nil
+//@   lock mux protects memHas, memVal, memKey, memCurr, memPrev, memExp, stHas, stVal, H_limiter_item_currHits, H_limiter_item_prevHits, H_limiter_item_exp inv entry-wf: fixedWF(manager)
+//@   lock mux protects lkNone inv store-ok: storeOK(manager) && manager.storage == cfg.Storage
 //@   atcall (*manager).get: under-lock-own-key: held(mux) && ownKey(key)
 //@   atcall (*manager).set: under-lock-own-key: held(mux) && ownKey(key)
-//@   atcall (*manager).set: window-step: !called(@fiber.Ctx.Next) ==> ite(lsExp[key] == 0 || ts >= lsExp[key],
+//@   atcall (*manager).set: window-step: !called(@fiber.Ctx.Next) ==> ite(lsExp(manager, key) == 0 || ts >= lsExp(manager, key),
 //@ ..    it.currHits == 1 && it.exp == ts + expiration,
-//@ ..    it.currHits == lsCurr[key] + 1 && it.exp == lsExp[key])
-//@   atcall (*manager).set: skip-decrements-own-hit: called(@fiber.Ctx.Next) ==> it.currHits == ite(lsCurr[key] > 0, lsCurr[key] - 1, 0) && it.exp == lsExp[key]
+//@ ..    it.currHits == lsCurr(manager, key) + 1 && it.exp == lsExp(manager, key))
+//   (the same step, written with the step functions of the counting lemmas in zz_contracts_lemma_verif.go)
+//@   atcall (*manager).set: budget-test-is-the-lemma-admission: !called(@fiber.Ctx.Next) ==> (remaining >= 0 <==> fwAdmitted(lsCurr(manager, key), lsExp(manager, key), ts, maxRequests)) && maxRequests == last(Config.MaxFunc)
+//@   atcall (*manager).set: window-step-is-the-lemma-step: !called(@fiber.Ctx.Next) ==> it.currHits == fwCurr(lsCurr(manager, key), lsExp(manager, key), ts) && it.exp == fwExp(lsExp(manager, key), ts, expiration)
+//@   atcall (*manager).set: skip-decrements-own-hit: called(@fiber.Ctx.Next) ==> it.currHits == ite(lsCurr(manager, key) > 0, lsCurr(manager, key) - 1, 0) && it.exp == lsExp(manager, key)
 //@   atcall (*manager).set: entry-lives-one-window: exp == cfg.Expiration
 //@   atcall (*manager).set: skip-only-for-configured-class: called(@fiber.Ctx.Next) ==> cfg.SkipSuccessfulRequests || cfg.SkipFailedRequests
-//@   atcall @fiber.Ctx.Next: admitted-within-budget: !held(mux) && (bypass() || lsCurr[last(Config.KeyGenerator)] <= last(Config.MaxFunc))
-//@   atcall Config.LimitReached: rejected-only-when-exhausted: !held(mux) && lsCurr[last(Config.KeyGenerator)] > last(Config.MaxFunc)
-//@   atcall @fiber.Ctx.Set: retry-after-is-time-to-reset: key == "Retry-After" ==> val == fmtUint(lsExp[last(Config.KeyGenerator)] - ts, 10) && lsExp[last(Config.KeyGenerator)] > ts
+//@   atcall @fiber.Ctx.Next: admitted-within-budget: !held(mux) && (bypass() || lsCurr(manager, last(Config.KeyGenerator)) <= last(Config.MaxFunc))
+//@   atcall Config.LimitReached: rejected-only-when-exhausted: !held(mux) && lsCurr(manager, last(Config.KeyGenerator)) > last(Config.MaxFunc)
+//@   atcall @fiber.Ctx.Set: retry-after-is-time-to-reset: key == "Retry-After" ==> val == fmtUint(lsExp(manager, last(Config.KeyGenerator)) - ts, 10) && lsExp(manager, last(Config.KeyGenerator)) > ts
 
 // ---- sliding window -------------------------------------------------------------------------------
 //@ macro rateOf(prev, curr, reset, window) = int(real(prev) * (real(reset) / real(window))) + curr
 
 //@ func (SlidingWindow).New$1
 //@   requires lock-free-on-entry: !held(mux)
+//@   requires wired: manager != nil && manager.storage == cfg.Storage
+//@   requires hooks-set: cfg.MaxFunc != nil && cfg.KeyGenerator != nil && cfg.LimitReached != nil
 //@   requires window-positive: expiration > 0 && expiration < 4294967296
-//@   lock mux protects lsCurr, lsPrev, lsExp inv entry-wf: forallS(k, (lsExp[k] == 0 ==> lsCurr[k] == 0 && lsPrev[k] == 0) && lsCurr[k] >= 0 && 0 <= lsExp[k] && lsExp[k] < 8589934592)
+//@   safety nil
+//   (calling a nil function value is not a safety class of the engine: stated as call-site clauses)
+//@   atcall Config.MaxFunc: hook-is-set: fnvalue != nil
+//@   atcall Config.Next: hook-is-set: fnvalue != nil
+//@   atcall Config.KeyGenerator: hook-is-set: fnvalue != nil
+//@   atcall Config.LimitReached: hook-is-set: fnvalue != nil
+//@   lock mux protects memHas, memVal, memKey, memCurr, memPrev, memExp, stHas, stVal, H_limiter_item_currHits, H_limiter_item_prevHits, H_limiter_item_exp inv entry-wf: slidingWF(manager)
+//@   lock mux protects lkNone inv store-ok: storeOK(manager) && manager.storage == cfg.Storage
 //@   atcall (*manager).get: under-lock-own-key: held(mux) && ownKey(key)
 //@   atcall (*manager).set: under-lock-own-key: held(mux) && ownKey(key)
-//@   atcall (*manager).set: window-step: !called(@fiber.Ctx.Next) ==> ite(lsExp[key] == 0,
-//@ ..    it.currHits == lsCurr[key] + 1 && it.prevHits == lsPrev[key] && it.exp == ts + expiration,
-//@ ..    ite(ts >= lsExp[key],
-//@ ..      it.currHits == 1 && it.prevHits == lsCurr[key] && it.exp == ite(ts - lsExp[key] >= expiration, ts + expiration, lsExp[key] + expiration),
-//@ ..      it.currHits == lsCurr[key] + 1 && it.prevHits == lsPrev[key] && it.exp == lsExp[key]))
-//@   atcall (*manager).set: skip-decrements-own-hit: called(@fiber.Ctx.Next) ==> it.currHits == ite(lsCurr[key] > 0, lsCurr[key] - 1, 0) && it.exp == lsExp[key] && it.prevHits == lsPrev[key]
+//@   atcall (*manager).set: window-step: !called(@fiber.Ctx.Next) ==> ite(lsExp(manager, key) == 0,
+//@ ..    it.currHits == lsCurr(manager, key) + 1 && it.prevHits == lsPrev(manager, key) && it.exp == ts + expiration,
+//@ ..    ite(ts >= lsExp(manager, key),
+//@ ..      it.currHits == 1 && it.prevHits == lsCurr(manager, key) && it.exp == ite(ts - lsExp(manager, key) >= expiration, ts + expiration, lsExp(manager, key) + expiration),
+//@ ..      it.currHits == lsCurr(manager, key) + 1 && it.prevHits == lsPrev(manager, key) && it.exp == lsExp(manager, key)))
+//   (the same step, written with the step functions of the counting lemmas in zz_contracts_lemma_verif.go)
+//@   atcall (*manager).set: window-step-is-the-lemma-step: !called(@fiber.Ctx.Next) ==> it.currHits == swCurr(lsCurr(manager, key), lsExp(manager, key), ts) && it.prevHits == swPrev(lsPrev(manager, key), lsCurr(manager, key), lsExp(manager, key), ts) && it.exp == swExp(lsExp(manager, key), ts, expiration)
+//@   atcall (*manager).set: skip-decrements-own-hit: called(@fiber.Ctx.Next) ==> it.currHits == ite(lsCurr(manager, key) > 0, lsCurr(manager, key) - 1, 0) && it.exp == lsExp(manager, key) && it.prevHits == lsPrev(manager, key)
 //@   atcall (*manager).set: entry-outlives-next-window: !called(@fiber.Ctx.Next) ==> exp == ((it.exp - ts) + expiration) * 1000000000
-//@   atcall @fiber.Ctx.Next: admitted-within-rate: !held(mux) && (bypass() || rateOf(lsPrev[last(Config.KeyGenerator)], lsCurr[last(Config.KeyGenerator)], lsExp[last(Config.KeyGenerator)] - ts, expiration) <= last(Config.MaxFunc))
-//@   atcall Config.LimitReached: rejected-only-when-exhausted: !held(mux) && rateOf(lsPrev[last(Config.KeyGenerator)], lsCurr[last(Config.KeyGenerator)], lsExp[last(Config.KeyGenerator)] - ts, expiration) > last(Config.MaxFunc)
-//@   atcall @fiber.Ctx.Set: retry-after-is-time-to-reset: key == "Retry-After" ==> val == fmtUint(lsExp[last(Config.KeyGenerator)] - ts, 10) && lsExp[last(Config.KeyGenerator)] > ts
+//   the skip section writes the entry back as well: it must not shorten its life (the hits of this window are the
+//   previous hits of the next one); T = the most recent clock reading, it.exp - T = time to the window end
+//@   atcall (*manager).set: skip-keeps-the-entry-for-the-next-window: called(@fiber.Ctx.Next) ==> exp >= (ite(it.exp > last(@utils.Timestamp), it.exp - last(@utils.Timestamp), 0) + expiration) * 1000000000
+//@   atcall @fiber.Ctx.Next: admitted-within-rate: !held(mux) && (bypass() || rateOf(lsPrev(manager, last(Config.KeyGenerator)), lsCurr(manager, last(Config.KeyGenerator)), lsExp(manager, last(Config.KeyGenerator)) - ts, expiration) <= last(Config.MaxFunc))
+//@   atcall Config.LimitReached: rejected-only-when-exhausted: !held(mux) && rateOf(lsPrev(manager, last(Config.KeyGenerator)), lsCurr(manager, last(Config.KeyGenerator)), lsExp(manager, last(Config.KeyGenerator)) - ts, expiration) > last(Config.MaxFunc)
+//@   atcall @fiber.Ctx.Set: retry-after-is-time-to-reset: key == "Retry-After" ==> val == fmtUint(lsExp(manager, last(Config.KeyGenerator)) - ts, 10) && lsExp(manager, last(Config.KeyGenerator)) > ts
